@@ -3,6 +3,7 @@ real pygopherd server classes on top of the simulated scheduler / network /
 file system, and provides the sequential reference server."""
 import configparser
 import copy
+import gc
 import io
 import os
 import shutil
@@ -81,6 +82,8 @@ def load_repo():
     initialization.init_mimetypes(cfg)
     _modstate = ModState()
     _loaded = True
+    import atexit
+    atexit.register(cleanup_process_scratch)
 
 
 def _repo_modules():
@@ -402,6 +405,12 @@ class SimRun:
 
     # ------------------------------------------------------------------
     def __enter__(self):
+        # cyclic GC runs at allocation-count-dependent moments; request objects
+        # (protocol <-> handler cycles) own files whose __del__ closes them, so
+        # automatic collection would be a hidden source of nondeterminism.
+        gc.collect()
+        self._gc_was = gc.isenabled()
+        gc.disable()
         _modstate.restore()
         self.sim.install()
         self.fs.install()
@@ -519,6 +528,9 @@ class SimRun:
             self.fs.uninstall()
             self.sim.uninstall()
             sys.stderr = self._saved_stderr
+            gc.collect()
+            if getattr(self, "_gc_was", True):
+                gc.enable()
             try:
                 if self.server is not None:
                     self.server.socket = None
@@ -584,6 +596,10 @@ class SimRun:
     def go(self):
         return self.sim.run()
 
+    def collect(self):
+        """Deterministic stand-in for the cyclic GC: driver only, while idle."""
+        gc.collect()
+
     def advance(self, dt):
         """Jump the simulated clock forward (driver only, while idle)."""
         self.sim.now += dt
@@ -616,8 +632,10 @@ class Scratch:
 
     def __init__(self, tag="run"):
         Scratch._n += 1
-        self.path = os.path.join(SCRATCH_BASE, "pgsim-%d" % os.getpid(),
-                                 "%s-%d" % (tag, Scratch._n))
+        # fixed-length path: the configured root is pickled into every cache
+        # file (GopherEntry.config), so its length must not vary between runs
+        self.path = os.path.join(SCRATCH_BASE, "pgsim-%07d" % os.getpid(),
+                                 "%s-%06d" % (tag[:3].ljust(3, "x"), Scratch._n))
 
     def __enter__(self):
         shutil.rmtree(self.path, ignore_errors=True)
@@ -630,7 +648,7 @@ class Scratch:
 
 
 def cleanup_process_scratch():
-    shutil.rmtree(os.path.join(SCRATCH_BASE, "pgsim-%d" % os.getpid()), ignore_errors=True)
+    shutil.rmtree(os.path.join(SCRATCH_BASE, "pgsim-%07d" % os.getpid()), ignore_errors=True)
 
 
 def copy_tree(src, dst):
